@@ -100,7 +100,16 @@ impl Sandbox {
         self.root.join("ws").join(name)
     }
     pub fn uri(&self, name: &str) -> String {
-        format!("file://{}", self.ws_file(name).display())
+        // percent-encoded the way editors send it
+        let mut out = String::from("file://");
+        for b in self.ws_file(name).to_string_lossy().bytes() {
+            if b.is_ascii_alphanumeric() || matches!(b, b'/' | b'-' | b'.' | b'_' | b'~') {
+                out.push(b as char);
+            } else {
+                out.push_str(&format!("%{b:02X}"));
+            }
+        }
+        out
     }
     /// settings object answered to workspace/configuration
     pub fn settings(&self, extra: Value) -> Value {
